@@ -415,6 +415,21 @@ def directed() -> list[dict[str, Any]]:
                               "arg_expr": "plain", "depth": depth, "repeat": depth == 1,
                               "reuse_definition": j % 2 == 0}
                         out.append({"spec": spec, "scenario": sc, "compile": j % 9 == 0})
+    # many results: tuple entries _0 .. _11 (string order differs from numeric order), and a
+    # dictionary whose keys look like tuple entries
+    inputs = [{"id": 0, "kind": "ph", "shape": [3], "dtype": "float64", "pool": "dyadic",
+               "name": "x0"}]
+    nodes = [{"id": 1 + k, "op": "mul", "args": [0, ps.enc_scalar(float(k + 1))], "params": {}}
+             for k in range(12)]
+    for ret, keys in (("tuple", [f"out{k:02d}" for k in range(12)]),
+                      ("dict", [f"_{k}" for k in range(12)])):
+        for depth in (1, 2):
+            spec = {"inputs": inputs, "nodes": nodes,
+                    "outputs": {keys[k]: 1 + k for k in range(12)},
+                    "vseed": 4900 + depth, "profile": "directed"}
+            sc = {"params": [0], "kw": {}, "ret": ret, "caller_names": {}, "arg_expr": "plain",
+                  "depth": depth, "repeat": False, "reuse_definition": False}
+            out.append({"spec": spec, "scenario": sc, "compile": False})
     return out
 
 
